@@ -96,7 +96,13 @@ class Model:
         for b in c["bases"]:
             out.extend(self.all_props(b))
         out.extend(c["props"])
-        return out
+        seen = set()
+        uniq = []
+        for p in out:  # a property reached along several inheritance paths (diamond) counts once
+            if p["name"]["src"] not in seen:
+                seen.add(p["name"]["src"])
+                uniq.append(p)
+        return uniq
 
     def all_defaults(self, cls: str) -> List[Dict[str, Any]]:
         c = self.classes[cls]
@@ -104,7 +110,13 @@ class Model:
         for b in c["bases"]:
             out.extend(self.all_defaults(b))
         out.extend(c["defaults"])
-        return out
+        seen = set()
+        uniq = []
+        for d in out:
+            if d["prop"] not in seen:
+                seen.add(d["prop"])
+                uniq.append(d)
+        return uniq
 
     def ancestors(self, cls: str) -> List[str]:
         out: List[str] = []
